@@ -247,6 +247,8 @@ func checkC08(c *Ctx, r *Report) {
 		}
 	}
 
+	checkPreparedInfo(c, r)
+
 	// ---- rpm flags ----
 	if pk := c.PackagerByFormat("rpm"); pk != nil {
 		reach := c.Reach(pk.Package)
@@ -265,6 +267,11 @@ func checkC08(c *Ctx, r *Report) {
 			if n >= 3 {
 				writer = fn
 			}
+		}
+		if writer == nil {
+			// the flags may be computed by a helper: anchor on the function
+			// that loops over the contents and adds the records
+			writer = payloadWriter(c, pk)
 		}
 		if writer == nil {
 			r.Unresolved("rpm payload writer", "no function passes rpmpack.FileType constants")
@@ -319,6 +326,53 @@ func checkC08(c *Ctx, r *Report) {
 					ok := !undecided && len(flags) == 1 && flags[fmt.Sprint(want)] && addFile
 					r.Check(ok, "R-rpmflag", construct, c.pos(writer.Pos()),
 						fmt.Sprintf("file-type constants that can reach the file constructor: {%s} (undecided=%v, added=%v); the statement requires exactly %d", strings.Join(got, ","), undecided, addFile, want))
+				}
+			}
+			// the flag handed to the constructor is the flag of the record that
+			// is added: every file record's Type field is set from a FileType
+			// value of its own construction on every path (not left unset and
+			// not inherited from a record built for another entry)
+			{
+				var fns []*ssa.Function
+				for _, fn := range sortedFuncs(c, reach) {
+					if c.funcPkgPath(fn) == pk.PkgPath {
+						fns = append(fns, fn)
+					}
+				}
+				nrec := 0
+				for _, h := range headerObjects(c, fns) {
+					if h.Kind != "rpm" || len(h.Uses) == 0 {
+						continue
+					}
+					isFile := false
+					for _, u := range h.Uses {
+						if h.classAt(u)["FILE"] {
+							isFile = true
+						}
+					}
+					if !isFile {
+						continue
+					}
+					nrec++
+					okT := true
+					why := "Type is stored from the constructor's FileType value on every path"
+					for _, u := range h.Uses {
+						defs, init := h.reaching("Type", u)
+						if init {
+							okT = false
+							why = fmt.Sprintf("at %s the record's Type can be whatever the record held before (unset, or copied from a record built for another entry): the flags would not be those of this entry's type", c.instrPos(u))
+						}
+						for _, st := range defs {
+							if !isNamed(st.Val.Type(), rpmpackPath, "FileType") {
+								okT = false
+								why = fmt.Sprintf("the Type stored at %s is not a FileType value", c.instrPos(st))
+							}
+						}
+					}
+					r.Check(okT, "R-rpmflag-field", "rpm: Type of file record "+h.key(c), c.instrPos(h.Create), why)
+				}
+				if nrec < 1 {
+					r.Fail("instance-floor", "R-rpmflag-field", "-", "no rpm file record found")
 				}
 			}
 			// ghost default mode: stored iff mode == 0
@@ -562,4 +616,293 @@ func checkRpmpackConstants(c *Ctx, r *Report) {
 		}
 		r.Check(ok, "R-rpmpack-const", "rpmpack."+name, "-", fmt.Sprintf("value %s, RPMFILE number %d", got, v))
 	}
+}
+
+// checkPreparedInfo (R-prepared): conffiles, backup lines and file flags are
+// computed from the *prepared* contents (globs expanded, entries for other
+// packagers dropped). After Package has handed an Info to
+// nfpm.PrepareForPackager, every function it calls that reads .Contents must
+// read it from that same Info - not from an unprepared copy or the original.
+func checkPreparedInfo(c *Ctx, r *Report) {
+	np := c.Func("", "PrepareForPackager")
+	if np == nil {
+		return
+	}
+	pa := newProv(c)
+	n := 0
+	for _, pk := range c.Packagers {
+		if pk.Format == "" {
+			continue
+		}
+		var prep *ssa.Call
+		forEachInstr(pk.Package, func(in ssa.Instruction) {
+			if call, ok := in.(*ssa.Call); ok && call.Call.StaticCallee() == np && prep == nil {
+				prep = call
+			}
+		})
+		if prep == nil {
+			r.Unresolved(pk.Format+" prepare call", "Package does not call nfpm.PrepareForPackager directly")
+			continue
+		}
+		n++
+		P := throughIdentity(c, prep.Call.Args[0])
+		same := func(v ssa.Value) bool {
+			v = throughIdentity(c, resolveUp(c, pa, chaseCell(v, 0)))
+			if v == P {
+				return true
+			}
+			// P is the address of a local, v a load/alias of it - or both load one cell
+			if ld, ok := v.(*ssa.UnOp); ok && ld.Op == token.MUL {
+				if pl, ok := P.(*ssa.UnOp); ok && pl.Op == token.MUL {
+					cellOf := func(x ssa.Value) ssa.Value {
+						if fv, ok := x.(*ssa.FreeVar); ok {
+							if b := freeVarBinding(fv); b != nil {
+								return b
+							}
+						}
+						return x
+					}
+					pc, vc := cellOf(pl.X), cellOf(ld.X)
+					if pc == vc {
+						// one variable: the same Info as long as it is not
+						// reassigned after the prepare call
+						settled := true
+						if al, ok := pc.(*ssa.Alloc); ok {
+							for _, ref := range *al.Referrers() {
+								if st, ok := ref.(*ssa.Store); ok && st.Addr == ssa.Value(al) && !instrDominates(st, prep) {
+									settled = false
+								}
+							}
+						}
+						return settled
+					}
+				}
+			}
+			return false
+		}
+		isInfoPtr := func(t types.Type) bool { return isPtrToNamed(t, modPath, "Info") }
+		type rawParam struct {
+			fn  *ssa.Function
+			idx int
+		}
+		raw := map[rawParam]bool{}
+		var work []rawParam
+		var firstBad ssa.Instruction
+		badWhy := ""
+		readsContents := func(v ssa.Value) ssa.Instruction {
+			if v.Referrers() == nil {
+				return nil
+			}
+			for _, ref := range *v.Referrers() {
+				if fa, ok := ref.(*ssa.FieldAddr); ok {
+					name := fieldName(fa.X.Type(), fa.Field)
+					if name == "Contents" {
+						return fa
+					}
+					if name == "Overridables" {
+						for _, r2 := range *fa.Referrers() {
+							if f2, ok := r2.(*ssa.FieldAddr); ok && fieldName(f2.X.Type(), f2.Field) == "Contents" {
+								return f2
+							}
+						}
+					}
+				}
+			}
+			return nil
+		}
+		// scan a function body: calls with an Info argument that is not P
+		var scan func(fn *ssa.Function, post func(ssa.Instruction) bool, isRaw func(ssa.Value) bool, d int)
+		scan = func(fn *ssa.Function, post func(ssa.Instruction) bool, isRaw func(ssa.Value) bool, d int) {
+			if d > 6 {
+				return
+			}
+			forEachInstr(fn, func(in ssa.Instruction) {
+				if !post(in) {
+					return
+				}
+				switch x := in.(type) {
+				case ssa.CallInstruction:
+					sc := x.Common().StaticCallee()
+					if sc == nil || sc.Blocks == nil || !c.isModuleFunc(sc) || sc == np {
+						return
+					}
+					for i, a := range x.Common().Args {
+						if isInfoPtr(a.Type()) && isRaw(a) && i < len(sc.Params) {
+							k := rawParam{sc, i}
+							if !raw[k] {
+								raw[k] = true
+								work = append(work, k)
+							}
+						}
+					}
+				case *ssa.MakeClosure:
+					if f, ok := x.Fn.(*ssa.Function); ok {
+						scan(f, func(ssa.Instruction) bool { return true }, isRaw, d+1)
+					}
+				}
+			})
+		}
+		rawInPackage := func(v ssa.Value) bool { return !same(v) }
+		scan(pk.Package, func(in ssa.Instruction) bool { return instrDominates(prep, in) }, rawInPackage, 0)
+		// direct reads in Package (and its closures) after prepare
+		var infoVals []ssa.Value
+		collect := func(fn *ssa.Function) {
+			for _, p := range fn.Params {
+				if isInfoPtr(p.Type()) {
+					infoVals = append(infoVals, p)
+				}
+			}
+			for _, fv := range fn.FreeVars {
+				if isInfoPtr(fv.Type()) {
+					infoVals = append(infoVals, fv)
+				}
+			}
+			forEachInstr(fn, func(in ssa.Instruction) {
+				if v, ok := in.(ssa.Value); ok && isInfoPtr(v.Type()) {
+					infoVals = append(infoVals, v)
+				}
+			})
+		}
+		collect(pk.Package)
+		for _, an := range pk.Package.AnonFuncs {
+			collect(an)
+		}
+		for _, v := range infoVals {
+			if same(v) {
+				continue
+			}
+			if rd := readsContents(v); rd != nil && firstBad == nil {
+				if rd.Parent() != pk.Package || instrDominates(prep, rd) {
+					firstBad = rd
+					badWhy = "the contents are read from an Info other than the one handed to PrepareForPackager"
+				}
+			}
+		}
+		for len(work) > 0 {
+			k := work[0]
+			work = work[1:]
+			prm := k.fn.Params[k.idx]
+			if rd := readsContents(prm); rd != nil && firstBad == nil {
+				firstBad = rd
+				badWhy = fmt.Sprintf("%s reads the contents of an Info that, at a call after the prepare step, is not the prepared one", c.funcKey(k.fn))
+			}
+			scan(k.fn, func(ssa.Instruction) bool { return true }, func(v ssa.Value) bool {
+				return chaseCell(v, 0) == ssa.Value(prm)
+			}, 0)
+		}
+		construct := pk.Format + ": after the prepare step the contents are read from the prepared Info only"
+		if firstBad != nil {
+			r.Fail("R-prepared", construct, c.instrPos(firstBad), badWhy+": config entries would be listed (conffiles, backup, flags) as configured - globs unexpanded, entries of other packagers included - while the payload holds the prepared entries")
+		} else {
+			r.Pass("R-prepared", construct, c.instrPos(prep), "every Info whose contents are read after the prepare call is the value handed to it")
+		}
+	}
+	r.Floor("R-prepared", n, 5)
+}
+
+// throughIdentity strips calls of module functions every return of which is
+// one and the same parameter (withChangelogIfRequested(info) returns info).
+func throughIdentity(c *Ctx, v ssa.Value) ssa.Value {
+	for i := 0; i < 4; i++ {
+		call, ok := v.(*ssa.Call)
+		if !ok {
+			return v
+		}
+		sc := call.Call.StaticCallee()
+		if sc == nil || sc.Blocks == nil || !c.isModuleFunc(sc) {
+			return v
+		}
+		idx := -1
+		for _, b := range sc.Blocks {
+			ret, ok := b.Instrs[len(b.Instrs)-1].(*ssa.Return)
+			if !ok {
+				continue
+			}
+			res := retResults(ret)
+			if len(res) != 1 {
+				return v
+			}
+			prm, ok := res[0].(*ssa.Parameter)
+			if !ok {
+				return v
+			}
+			k := -1
+			for j, q := range sc.Params {
+				if q == prm {
+					k = j
+				}
+			}
+			if k < 0 || idx >= 0 && idx != k {
+				return v
+			}
+			idx = k
+		}
+		if idx < 0 || idx >= len(call.Call.Args) {
+			return v
+		}
+		v = call.Call.Args[idx]
+	}
+	return v
+}
+
+// freeVarBinding: the value a closure's free variable is bound to where the
+// closure is made (nil when not found).
+func freeVarBinding(fv *ssa.FreeVar) ssa.Value {
+	fn := fv.Parent()
+	p := fn.Parent()
+	if p == nil {
+		return nil
+	}
+	var b ssa.Value
+	forEachInstr(p, func(in ssa.Instruction) {
+		if mc, ok := in.(*ssa.MakeClosure); ok && mc.Fn == fn {
+			for j, f := range fn.FreeVars {
+				if f == fv && j < len(mc.Bindings) {
+					b = mc.Bindings[j]
+				}
+			}
+		}
+	})
+	return b
+}
+
+// chaseCell resolves a value through single-source local cells and closure
+// captures: a load of a cell that only ever holds one value yields that
+// value; a free variable yields what it is bound to.
+func chaseCell(v ssa.Value, d int) ssa.Value {
+	if d > 8 || v == nil {
+		return v
+	}
+	switch x := v.(type) {
+	case *ssa.FreeVar:
+		if b := freeVarBinding(x); b != nil {
+			return chaseCell(b, d+1)
+		}
+	case *ssa.UnOp:
+		if x.Op != token.MUL {
+			return v
+		}
+		cell := x.X
+		if fv, ok := cell.(*ssa.FreeVar); ok {
+			cell = freeVarBinding(fv)
+		}
+		al, ok := cell.(*ssa.Alloc)
+		if !ok || al.Referrers() == nil {
+			return v
+		}
+		var src ssa.Value
+		for _, ref := range *al.Referrers() {
+			if st, ok := ref.(*ssa.Store); ok && st.Addr == ssa.Value(al) {
+				s2 := chaseCell(st.Val, d+1)
+				if src != nil && s2 != src {
+					return v
+				}
+				src = s2
+			}
+		}
+		if src != nil {
+			return src
+		}
+	}
+	return v
 }
